@@ -49,6 +49,7 @@ type scriptConn struct {
 	rerr    string // "", "closed", "reset": the error the read at the end of the stream returns (default EOF)
 	wfail   int    // >0: the wfail-th and every later Write fails
 	writes  int
+	deof    bool // the last bytes are delivered together with io.EOF
 	// deadlines the framework armed (see segReader: segments are an hour apart on this transport's clock)
 	rdeadline, wdeadline time.Time
 }
@@ -81,6 +82,20 @@ func (c *scriptConn) Read(b []byte) (int, error) {
 	}
 	n := copy(b, c.segs[0])
 	c.segs[0] = c.segs[0][n:]
+	if c.deof && c.rerr == "" && len(c.segs[0]) == 0 {
+		// the transport hands out the last bytes together with the end of the stream (tls.Conn does when the peer's
+		// close_notify is already buffered behind the last record)
+		last := true
+		for _, rest := range c.segs[1:] {
+			if len(rest) > 0 {
+				last = false
+			}
+		}
+		if last {
+			c.segs = nil
+			return n, io.EOF
+		}
+	}
 	return n, nil
 }
 
@@ -413,6 +428,7 @@ type serveCase struct {
 	rerr      string
 	lag       time.Duration
 	memo      bool
+	deof      bool
 	app       []string
 	segs      [][]byte
 	script    []scriptedResult
@@ -495,6 +511,8 @@ func parseServeCase(toks []string) *serveCase {
 			c.rerr = t[5:]
 		case t == "memo":
 			c.memo = true
+		case t == "deof":
+			c.deof = true
 		case strings.HasPrefix(t, "app="):
 			// executors the application registers itself, under these names (hex, comma separated)
 			for _, h := range strings.Split(t[4:], ",") {
@@ -558,7 +576,7 @@ func newServerFor(c *serveCase, log *eventLog) (*redis.Server, *double) {
 func runServe(c *serveCase) *serveResult {
 	log := &eventLog{}
 	srv, d := newServerFor(c, log)
-	conn := &scriptConn{log: log, segs: c.segs, wfail: c.wfail, rerr: c.rerr, lag: c.lag}
+	conn := &scriptConn{log: log, segs: c.segs, wfail: c.wfail, rerr: c.rerr, lag: c.lag, deof: c.deof}
 	res := &serveResult{}
 	done := make(chan struct{})
 	go func() {
